@@ -32,7 +32,7 @@ import gen as c20gen  # noqa: E402
 
 THEOREMS = ["JanetModel.Props.C20." + t for t in (
     "done_expr_match", "counter_sites_match", "poll_phase_match", "root_sites_match",
-    "step_inv", "run_inv", "listener_count_inv", "no_premature_exit", "no_hang_when_idle", "loopDone_iff_idle",
+    "step_inv", "run_inv", "loop1_inv", "janetLoop_inv", "janetLoop_exit_nothing_outstanding", "listener_count_inv", "no_premature_exit", "no_hang_when_idle", "loopDone_iff_idle",
     "null_event_keeps_loop_alive", "nullStuck_zero", "loopDone_iff_idle_fixed", "collected_suspended_task_keeps_count",
     "dropStale_all_stale", "dropStale_head_live", "dropStale_sublist", "stale_timers_cannot_keep_loop_alive", "pollPrelude_counters",
     "roots_balanced", "tchanLeaked_zero", "roots_balanced_released", "tchan_root_never_released", "gc_listener_leaves_stream_root")]
